@@ -66,3 +66,6 @@ func (c *Ctx) MustFunc(rule, rel, name string) *ssa.Function {
 }
 
 func (c *Ctx) Pos(in ssa.Instruction) string { return c.P.InstrPos(in) }
+
+// InModule reports whether f belongs to a package of the analysed module.
+func (c *Ctx) InModule(f *ssa.Function) bool { return c.inModule(f) }
